@@ -27,6 +27,7 @@ func checkC02(p *Prog, res *Result, tier string) {
 	res.rule("C02-R1", "TSO counters: atomic-only access; dealt counter written only by +1 in Deal, Store in Init, guarded monotone CAS in Commit; committed counter only by Store in Init and guarded monotone CAS in Commit", 6)
 	res.rule("C02-R2", "every version key written to storage carries an allocated revision", 5)
 	res.rule("C02-R3", "only the sequencer, the leader-start callback, the follower sync and pass-throughs call TSO.Init/Commit/SetCurrentRevision", 3)
+	res.rule("C02-R7", "a version record is committed with an allocated revision only where that allocation's error (oracle failure, revision drift back below the revision the write is conditioned on) was found nil", 4)
 	res.rule("C02-R5", "along one key's history revisions increase: guards of the index CAS (create over a tombstone only if prevRevision < revision; delete only if newRevision > modRevision) — C01-R3/R4, evaluated atomically by every engine (C01-R6)", 12)
 	res.rule("C02-R6", "a node that becomes leader seeds its counters from the lock's engine timestamp before it admits writes (C15-R1): no revision is handed out twice across a hand-over", 3)
 	res.rule("C02-R4", "each backend response with header revision h and data revision d establishes h >= d by an accepted proof form", 5)
@@ -47,6 +48,8 @@ func checkC02(p *Prog, res *Result, tier string) {
 			res.bad("C02-R2", construct, p.pos(vb.put.Call.Pos()), "the version record is stamped with a revision that is not a freshly allocated one ("+why+"): two writes can share a revision or a key's history can go backwards")
 		}
 	}
+
+	checkAllocErrorChecked(p, r, a, res, "C02-R7")
 
 	// ---- R5: per-key monotonicity rests on the guards of the index CAS (C01-R3 / C01-R4) ----
 	sub1 := p.subResult("C01", tier)
@@ -782,4 +785,149 @@ func checkTSOCounters(p *Prog, r *Roles, res *Result, rule string) {
 		}
 	}
 
+}
+
+// checkAllocErrorChecked (C02-R7): an allocation can fail - the oracle can, and the backend's own allocator reports
+// "revision drift back" when the revision it hands out is not above the revision the caller's write is conditioned on.
+// A version record may be committed with an allocated revision only where that allocation's error was found nil; an
+// allocator wrapper that drops the error may serve the paths that return without writing, not the path to a commit.
+func checkAllocErrorChecked(p *Prog, r *Roles, a *allocInfo, res *Result, rule string) {
+	// does f (an allocating function without an error result) discard the error of an allocator it calls?
+	swallows := func(f *ssa.Function) (string, bool) {
+		if f == nil || f.Blocks == nil {
+			return "", false
+		}
+		for _, c := range callsIn(f) {
+			call, ok := c.(*ssa.Call)
+			if !ok {
+				continue
+			}
+			isAlloc := r.is(c, r.TSODeal)
+			if sc := c.Common().StaticCallee(); sc != nil {
+				if _, ok := a.allocRet[sc]; ok {
+					isAlloc = true
+				}
+			}
+			ei := -1
+			if tup, ok := call.Type().(*types.Tuple); ok {
+				for i := 0; i < tup.Len(); i++ {
+					if types.Identical(tup.At(i).Type(), types.Universe.Lookup("error").Type()) {
+						ei = i
+					}
+				}
+			}
+			if !isAlloc || ei < 0 {
+				continue
+			}
+			used := false
+			for _, ref := range *call.Referrers() {
+				if ex, ok := ref.(*ssa.Extract); ok && ex.Index == ei && ex.Referrers() != nil && len(*ex.Referrers()) > 0 {
+					used = true
+				}
+			}
+			if !used {
+				return callName(call), true
+			}
+		}
+		return "", false
+	}
+	var judge func(v ssa.Value, use ssa.Instruction, depth int) (string, bool)
+	judge = func(v ssa.Value, use ssa.Instruction, depth int) (string, bool) {
+		if depth > 4 {
+			return "provenance too deep", true
+		}
+		v = p.resolveDeep(v)
+		switch x := v.(type) {
+		case *ssa.Parameter:
+			p.buildCallers()
+			si := sigParamIndex(x)
+			n := 0
+			for _, cs := range p.callers[x.Parent()] {
+				var act ssa.Value
+				if cs.Common().IsInvoke() {
+					if si >= 0 {
+						act = argForSigParam(cs, si)
+					}
+				} else if i := paramIndex(x); i < len(cs.Common().Args) {
+					act = cs.Common().Args[i]
+				}
+				if act == nil {
+					continue
+				}
+				n++
+				if why, ok := judge(act, cs.(ssa.Instruction), depth+1); !ok {
+					return why, false
+				}
+			}
+			return fmt.Sprintf("checked at all %d call site(s)", n), true
+		case *ssa.Extract, *ssa.Call:
+			c, idx, ok := extractOf(v)
+			if !ok {
+				break
+			}
+			isAlloc := r.is(c, r.TSODeal) && idx == 0
+			sc := c.Common().StaticCallee()
+			if sc != nil {
+				if ai, ok := a.allocRet[sc]; ok && ai == idx {
+					isAlloc = true
+				}
+			}
+			if !isAlloc {
+				break
+			}
+			ei := -1
+			if tup, ok := c.Type().(*types.Tuple); ok {
+				for i := 0; i < tup.Len(); i++ {
+					if types.Identical(tup.At(i).Type(), types.Universe.Lookup("error").Type()) {
+						ei = i
+					}
+				}
+			}
+			if ei < 0 {
+				if what, sw := swallows(sc); sw {
+					return fmt.Sprintf("the revision comes from %s, which discards the error of %s: a revision that is not above the revision the write is conditioned on (revision drift back after a change of leader), or the zero revision of a failed oracle, is written as if it had been allocated properly - the update succeeds below the version it replaces", funcName(sc), what), false
+				}
+				return "allocator without an error", true
+			}
+			var errV ssa.Value
+			for _, ref := range *c.Referrers() {
+				if ex, ok := ref.(*ssa.Extract); ok && ex.Index == ei {
+					errV = ex
+				}
+			}
+			if errV != nil {
+				for _, cf := range dominatingFacts(use.Block()) {
+					if cf.X == nil {
+						continue
+					}
+					x, y := resolve(cf.X), resolve(cf.Y)
+					if isNilConst(x) {
+						x, y = y, x
+					}
+					if sameVal(x, errV) && isNilConst(y) && ((cf.Op == token.EQL && cf.Want) || (cf.Op == token.NEQ && !cf.Want)) {
+						return "the allocation's error was found nil", true
+					}
+				}
+			}
+			return "the version record is committed with a revision whose allocation error was not found nil on the way (revision drift back / a failed oracle read is ignored): the write lands below the version it replaces", false
+		}
+		return "not an allocation in this frame", true
+	}
+	for _, vb := range p.versionedBatches() {
+		name := vb.b.name() + ctxName(p, vb.ctx)
+		construct := name + ": the allocation of the written revision succeeded"
+		var use ssa.Instruction = vb.put.Call.(ssa.Instruction)
+		if len(vb.b.Commits) > 0 {
+			use = vb.b.Commits[0].(ssa.Instruction)
+		}
+		rev := vb.pk.Rev
+		if vb.ctx != nil {
+			rev = p.ctxValue(rev, vb.ctx)
+		}
+		if why, ok := judge(rev, use, 0); ok {
+			res.ok(rule, construct, p.pos(use.Pos()), why)
+		} else {
+			res.bad(rule, construct, p.pos(use.Pos()), why)
+		}
+	}
 }
